@@ -2915,3 +2915,278 @@ func init() {
 		validatorsReadWithoutCreatingRule(p, r, "C02-R10")
 	})
 }
+
+// ---------------------------------------------------------------------------------------------
+// Round 8.
+
+// maxCostCoversCostRule: the balance bound used at admission (CalculateMaxCost) has every component the
+// charged cost (CalculateCost) has, with the declared maximum fee in place of the fee: every `…OrZero`
+// accessor of the transaction that CalculateCost adds is also added by CalculateMaxCost, and
+// MaxFeeOrZero is. (applyTxOnState debits amount, tips and fee; a bound that lacks one of them admits a
+// transaction whose sender cannot pay it — the balance goes negative and is stored as its absolute value.)
+func maxCostCoversCostRule(p *engine.Prog, r *engine.Report, rule string) {
+	parts := func(f *ssa.Function) map[string]bool {
+		out := map[string]bool{}
+		for _, c := range engine.Calls(f) {
+			if !engine.CallNameIs(c, "Add") {
+				continue
+			}
+			for _, a := range c.Common().Args[1:] {
+				for v := range engine.BackSlice(a, engine.SliceOpts{ThroughLoads: true, MaxNodes: 20}) {
+					if cc, ok := v.(*ssa.Call); ok {
+						if o := engine.CalleeObj(&cc.Call); o != nil && strings.HasSuffix(o.Name(), "OrZero") {
+							out[o.Name()] = true
+						}
+					}
+				}
+			}
+		}
+		return out
+	}
+	cost := mustFunc(p, r, "blockchain/fee", "CalculateCost")
+	max := mustFunc(p, r, "blockchain/fee", "CalculateMaxCost")
+	if cost == nil || max == nil {
+		return
+	}
+	pc, pm := parts(cost), parts(max)
+	var missing []string
+	for k := range pc {
+		if !pm[k] {
+			missing = append(missing, k)
+		}
+	}
+	if !pm["MaxFeeOrZero"] {
+		missing = append(missing, "MaxFeeOrZero")
+	}
+	sort.Strings(missing)
+	r.Check(len(pc) >= 2, rule, "CalculateCost|components found (control)", p.Pos(cost.Pos()), joinKeys(pc), "fewer than two transaction components found in CalculateCost: anchor moved")
+	r.Check(len(missing) == 0, rule, "CalculateMaxCost|the admission bound has every component that is charged", p.Pos(max.Pos()), joinKeys(pm), "CalculateMaxCost does not add "+strings.Join(missing, ", ")+" although the charged cost does: a transaction (every one entering the pool, and the contract types inside a block) is admitted with a balance below what applyTxOnState debits — the sender's balance goes negative, is stored as its absolute value, and coins appear from nowhere")
+}
+
+// subEnvMergeCompleteRule: when a nested WASM environment is committed into its parent, every entry of
+// each of its buffers reaches the parent — removals (tombstones) included: in WasmEnv.Commit no
+// iteration of a loop that copies into a parent's buffer completes without the copy.
+func subEnvMergeCompleteRule(p *engine.Prog, r *engine.Report, rule string) {
+	f := mustFunc(p, r, "vm/wasm", "WasmEnv.Commit")
+	if f == nil {
+		return
+	}
+	fromParent := func(v ssa.Value) bool {
+		for x := range engine.BackSlice(v, engine.SliceOpts{ThroughLoads: true, ThroughFields: true, MaxNodes: 40}) {
+			if u, ok := x.(*ssa.UnOp); ok && u.Op == token.MUL {
+				if _, fld, ok := engine.FieldOf(u.X); ok && fld == "parent" {
+					return true
+				}
+			}
+		}
+		return false
+	}
+	byLoop := map[*ssa.BasicBlock]map[*ssa.BasicBlock]bool{}
+	for _, b := range f.Blocks {
+		for _, ins := range b.Instrs {
+			mu, ok := ins.(*ssa.MapUpdate)
+			if !ok || !fromParent(mu.Map) {
+				continue
+			}
+			if h := enclosingLoopHeader(b); h != nil {
+				if byLoop[h] == nil {
+					byLoop[h] = map[*ssa.BasicBlock]bool{}
+				}
+				byLoop[h][b] = true
+			}
+		}
+	}
+	n := 0
+	var hdrs []*ssa.BasicBlock
+	for h := range byLoop {
+		hdrs = append(hdrs, h)
+	}
+	sort.Slice(hdrs, func(i, j int) bool { return hdrs[i].Index < hdrs[j].Index })
+	for _, h := range hdrs {
+		n++
+		reach := engine.ReachAvoiding(f, h, nil, byLoop[h])
+		ok := true
+		for _, pr := range h.Preds {
+			if h.Dominates(pr) && !byLoop[h][pr] && reach[pr] {
+				// an inner loop's own back edge into an outer header is fine only if the inner copy ran
+				ok = false
+			}
+		}
+		// a nested loop (per contract, per key): the outer iteration completes through the inner loop
+		if !ok {
+			inner := false
+			for h2 := range byLoop {
+				if h2 != h && loopBlocks(h)[h2] {
+					inner = true
+				}
+			}
+			if inner {
+				ok = true
+			}
+		}
+		pos := ""
+		if len(h.Instrs) > 0 {
+			pos = p.InstrPos(h.Instrs[0])
+		}
+		r.Check(ok, rule, uniq(r, "WasmEnv.Commit|every entry of a nested buffer reaches the parent"), pos, "no iteration skips the copy", "an iteration of a merge loop can complete without copying its entry into the parent's buffer (e.g. removals are dropped instead of carried up): a key removed by a nested call reappears with its old value for the caller and the removal never reaches the state although the transaction succeeds")
+	}
+	r.Check(n >= 3, rule, "WasmEnv.Commit|merge loops found (control)", p.Pos(f.Pos()), fmt.Sprint(n), "fewer than three loops that copy into the parent's buffers found: anchor moved")
+}
+
+// extraFlipsOnlyForUnansweredRule: in qualifyCandidate an extra short-session flip is made available only
+// for a not-approved flip the candidate did not answer: the increment is controlled both by the
+// membership test in notApprovedFlips and by a comparison of that flip's answer with None.
+func extraFlipsOnlyForUnansweredRule(p *engine.Prog, r *engine.Report, rule string) {
+	f := mustFunc(p, r, "core/ceremony", "qualification.qualifyCandidate")
+	if f == nil {
+		return
+	}
+	n := 0
+	for _, b := range f.Blocks {
+		for _, ins := range b.Instrs {
+			bo, ok := ins.(*ssa.BinOp)
+			if !ok || bo.Op != token.ADD {
+				continue
+			}
+			if c, isC := engine.ConstInt(bo.Y); !isC || c != 1 {
+				continue
+			}
+			// the counter that is compared with ShortSessionExtraFlipsCount()
+			isCounter := false
+			seenPhi := map[ssa.Value]bool{}
+			var chase func(v ssa.Value, depth int)
+			chase = func(v ssa.Value, depth int) {
+				if depth > 4 || seenPhi[v] || v.Referrers() == nil {
+					return
+				}
+				seenPhi[v] = true
+				for _, ref := range *v.Referrers() {
+					switch x := ref.(type) {
+					case *ssa.Phi:
+						chase(x, depth+1)
+					case *ssa.BinOp:
+						if x.Op == token.LSS && x.X == v {
+							for y := range engine.BackSlice(x.Y, engine.SliceOpts{ThroughCalls: false, MaxNodes: 10}) {
+								if c, ok := y.(*ssa.Call); ok && engine.CallNameIs(c, "ShortSessionExtraFlipsCount") {
+									isCounter = true
+								}
+							}
+						}
+					}
+				}
+			}
+			chase(bo, 0)
+			if !isCounter {
+				continue
+			}
+			n++
+			member, unanswered := false, false
+			for _, d := range f.Blocks {
+				if len(d.Instrs) == 0 {
+					continue
+				}
+				iff, ok := d.Instrs[len(d.Instrs)-1].(*ssa.If)
+				if !ok || !(d.Succs[0] == b || d.Succs[0].Dominates(b)) || len(d.Succs[0].Preds) != 1 {
+					continue
+				}
+				if c, ok := engine.Unwrap(iff.Cond).(*ssa.Call); ok && engine.CallNameIs(c, "Contains") {
+					member = true
+				}
+				if cmp, ok := iff.Cond.(*ssa.BinOp); ok && cmp.Op == token.EQL {
+					if k, isC := engine.ConstInt(cmp.Y); isC && k == 0 {
+						if ex, ok := engine.Unwrap(cmp.X).(*ssa.Extract); ok {
+							if c, ok := ex.Tuple.(*ssa.Call); ok && engine.CallNameIs(c, "Answer") {
+								unanswered = true
+							}
+						}
+					}
+				}
+			}
+			r.Check(member && unanswered, rule, uniq(r, "qualifyCandidate|an extra flip only for a not-approved flip left unanswered"), p.InstrPos(bo), "Contains(flip) && answer == None", "the extra-flip counter is incremented without both tests (membership in the not-approved flips and answer == None): a candidate who answered a not-approved author's flip is scored on the regular and the extra flips — 3/6 below the minimum becomes 5/8 above it, and an identity the rules kill is promoted")
+		}
+	}
+	r.Check(n >= 1, rule, "qualifyCandidate|extra-flip counter found (control)", p.Pos(f.Pos()), fmt.Sprint(n), "the counter compared with ShortSessionExtraFlipsCount() was not found: anchor moved")
+}
+
+// evidenceMajorityShapeRule: the evidence threshold is a strict majority of the published maps.
+// Decided by shape only, idioms enumerated: len(maps)/2 + 1, or (len(maps)+2)/2; anything else is
+// undecided (the value of an arbitrary integer expression is not decided by this family).
+func evidenceMajorityShapeRule(p *engine.Prog, r *engine.Report, rule string) {
+	f := mustFunc(p, r, "core/appstate", "EvidenceMap.CalculateApprovedCandidates")
+	if f == nil {
+		return
+	}
+	maps := ssa.Value(f.Params[len(f.Params)-1])
+	isLen := func(v ssa.Value) bool {
+		c, ok := engine.Unwrap(v).(*ssa.Call)
+		if !ok {
+			return false
+		}
+		b, isB := c.Call.Value.(*ssa.Builtin)
+		return isB && b.Name() == "len" && engine.Origin(c.Call.Args[0]) == maps
+	}
+	konst := func(v ssa.Value, k int64) bool { c, ok := engine.ConstInt(v); return ok && c == k }
+	verdict := ""
+	var at ssa.Instruction
+	for _, b := range f.Blocks {
+		for _, ins := range b.Instrs {
+			bo, ok := ins.(*ssa.BinOp)
+			if !ok {
+				continue
+			}
+			// len/2 + 1
+			if bo.Op == token.ADD && konst(bo.Y, 1) {
+				if q, ok := bo.X.(*ssa.BinOp); ok && q.Op == token.QUO && isLen(q.X) && konst(q.Y, 2) {
+					verdict, at = "ok", bo
+				}
+			}
+			// (len + k) / 2
+			if bo.Op == token.QUO && konst(bo.Y, 2) {
+				if a, ok := bo.X.(*ssa.BinOp); ok && a.Op == token.ADD && isLen(a.X) {
+					if konst(a.Y, 2) {
+						verdict, at = "ok", bo
+					} else if verdict == "" {
+						verdict, at = "bad", bo
+					}
+				}
+				if isLen(bo.X) && verdict == "" {
+					// bare len/2 used as the threshold (no +1 found so far)
+					verdict, at = "half", bo
+				}
+			}
+		}
+	}
+	key := "CalculateApprovedCandidates|the threshold is a strict majority of the maps"
+	switch verdict {
+	case "ok":
+		r.OK(rule, key, p.InstrPos(at), "len(maps)/2 + 1")
+	case "bad":
+		r.Bad(rule, key, p.InstrPos(at), "the threshold is (len(maps)+k)/2 with k != 2: for an even number of evidence maps a candidate confirmed by exactly half of them is approved (and with no map at all everybody is) — an identity that missed the session keeps its score instead of being treated as missed")
+	case "half":
+		// len/2 alone may be followed by a +1 elsewhere; not recognised
+		r.Und(rule, key, p.InstrPos(at), "len(maps)/2 found without the +1 in the same expression: shape not recognised")
+	default:
+		r.Und(rule, key, p.Pos(f.Pos()), "no threshold expression over len(maps) recognised (accepted idioms: len/2 + 1, (len+2)/2)")
+	}
+}
+
+func init() {
+	extend("C04", func(p *engine.Prog, r *engine.Report) {
+		r.Explanation += " (R12) a nested WASM environment reads balances through its parents (imports C15-R7); (R13) the admission bound CalculateMaxCost has every component CalculateCost charges."
+		importRules(p, r, "C15", map[string]string{"C15-R7": "C04-R12"})
+		maxCostCoversCostRule(p, r, "C04-R13")
+	})
+	extend("C05", func(p *engine.Prog, r *engine.Report) {
+		maxCostCoversCostRule(p, r, "C05-R9")
+	})
+	extend("C15", func(p *engine.Prog, r *engine.Report) {
+		r.Explanation += " (R9) the admission bound has every charged component (shared with C04-R13); (R10) committing a nested environment carries every entry of its buffers — removals included — into the parent."
+		maxCostCoversCostRule(p, r, "C15-R9")
+		subEnvMergeCompleteRule(p, r, "C15-R10")
+	})
+	extend("C17", func(p *engine.Prog, r *engine.Report) {
+		r.Explanation += " (R13) the evidence threshold has the shape of a strict majority (idioms enumerated; value not decided); (R14) an extra short-session flip is granted only for a not-approved flip left unanswered."
+		evidenceMajorityShapeRule(p, r, "C17-R13")
+		extraFlipsOnlyForUnansweredRule(p, r, "C17-R14")
+	})
+}
